@@ -8,7 +8,7 @@ import time
 import traceback
 
 JOBS = int(os.environ.get('VERIF_JOBS', '16'))
-CONTRACT_MODULES = ['contracts.dict_operations', 'contracts.point', 'contracts.expression', 'contracts.evals', 'contracts.translations', 'contracts.pep', 'contracts.wrappers', 'contracts.block_partition', 'contracts.function', 'contracts.mosek']
+CONTRACT_MODULES = ['contracts.dict_operations', 'contracts.point', 'contracts.expression', 'contracts.evals', 'contracts.translations', 'contracts.pep', 'contracts.wrappers', 'contracts.block_partition', 'contracts.function', 'contracts.mosek', 'contracts.psd_matrix']
 
 
 def load_contracts():
@@ -104,7 +104,7 @@ def _runtime(task):
         for it in range(n):
             fn, args, w = make_input(c, key, seed, it)
             desc = {k: describe(v) for k, v in args.items()}
-            rr = concrete.run_contract(c, fn, args, REG.global_types)
+            rr = c.runtime_direct(fn, args) if getattr(c, 'runtime_direct', None) else concrete.run_contract(c, fn, args, REG.global_types)
             out['runs'] += 1
             out['accepted'] += bool(rr.accepted)
             out['inconclusive'] += len(rr.inconclusive)
@@ -132,5 +132,5 @@ def replay_runtime(key, seed, it):
     from . import concrete
     c = REG.by_key[key]
     fn, args, w = make_input(c, key, seed, it)
-    rr = concrete.run_contract(c, fn, args, REG.global_types)
+    rr = c.runtime_direct(fn, args) if getattr(c, 'runtime_direct', None) else concrete.run_contract(c, fn, args, REG.global_types)
     return rr, {k: describe(v) for k, v in args.items()}
